@@ -574,6 +574,8 @@ def strat_aes_dec(env, cfg):
             case["kpos"] = draw(s_int(0, 31))
         case["capsel"] = draw(sf(["exact", "exact", "exact", "larger", "ptlen", "small"]))
         case["capk"] = draw(s_int(1, 33))
+        # decryption in place (out == in), as cp_ecies_dec and other callers do
+        case["inplace"] = draw(sf([0, 0, 1]))
         return case
     return s()
 
@@ -651,9 +653,12 @@ def run_aes_dec(env, cfg, case):
     else:
         capsel = "exact"
         cap = n
+    inplace = bool(case.get("inplace")) and n > 0
+    if inplace:
+        capsel, cap = "exact", n          # one buffer: the capacity is the ciphertext length
     p = Prog(poison=case["poison"])
-    out = p.buf(bytes([case["poison"]]) * cap)
     ci, ki, ii = p.buf(ct), p.buf(key), p.buf(iv)
+    out = ci if inplace else p.buf(bytes([case["poison"]]) * cap)
     p.call("bc_aes_cbc_dec", out, ci, ki, ii)
     p.dump(out)
     res = execute(env, cfg, p)
@@ -663,6 +668,7 @@ def run_aes_dec(env, cfg, case):
     ret, olen = c.ret_i(0), c.rets[1]
     refused = ret != RLC_OK or c.errored
     labels = ["aes-dec:mode:" + case["mode"], "aes-dec:klen:%d" % len(key), "aes-dec:cap:" + capsel,
+              "aes-dec:%s" % ("in-place" if inplace else "separate-buffers"),
               "aes-dec:blocks:%s" % (n // 16 if n < 96 else "6+")]
     if case["mode"] == "tail":
         v = case["v"]
